@@ -253,6 +253,39 @@ def run(model, col, tier):
 
     _c01.check_new_variable_fresh(col, vm, "R12.4")
     _lowering.check_scope_tables(model, col, "R12.4")
+    # ... and every execution of a declaration creates it: the declare instruction is emitted on every path (= R01.4)
+    from ..report import Collector as _C124
+
+    sub124 = _C124("C01")
+    _c01.run_R01_4(model, sub124, vm)
+    n124 = 0
+    for ob in sub124.obligations:
+        if "v_VariableDeclaration path" in ob.construct:
+            ob.rule = "R12.4"
+            col.obligations.append(ob)
+            n124 += 1
+    col.floor("R12.4", "declaration paths shared with C01", n124, 2)
+    # a name is resolved in the scope it is used in: nothing in the type pass remembers a resolution under a key that leaves
+    # the scope out (memo-key completeness, nslsa/memo.py)
+    from .. import memo as _memo12
+
+    _memo12.check_file(model, col, "R12.4", "nsl/passes/ComputeTypes.py")
+    _memo12.check_file(model, col, "R12.4", "nsl/types.py")
+    # a block is the scope of exactly the statements written in it: the grammar action hands the parsed statement list to
+    # the CompoundStatement as it is (splicing nested blocks into their parent would move their declarations outwards)
+    from ..astcover import built_classes as _built12
+    from ..dispatch import Dispatch as _D12
+    from ..grammar import Grammar as _G12
+    from .c08 import p_index as _pidx12
+
+    G12 = _G12(model)
+    sites12 = _built12(model, G12, _D12(model)).get("CompoundStatement", [])
+    col.floor("R12.4", "grammar actions building a CompoundStatement", len(sites12), 1)
+    for P, c, pname in sites12:
+        i = _pidx12(c.args[0], pname) if c.args else None
+        col.check(i is not None, "R12.4", f"nsl/parser.py::{P.func.name} block contents", f"CompoundStatement(p[{i}]): the parsed statement list itself",
+                  f"`{' '.join(unparse(c).split())[:70]}` builds the block from a computed list instead of the parsed statement list: statements (and declarations) of nested blocks "
+                  "can end up in the enclosing block, where their names stay visible after the inner block ended", "nsl/parser.py", c)
     for opc in ("LOAD", "STORE"):
         arm = vm.arm(opc)
         t = unparse(ast.Module(body=arm.body, type_ignores=[]))
